@@ -149,7 +149,7 @@ func verifC11Main() {
 		Rule: "space 'permutations': " + c11perm.Rule + "; space 'schedules': the real checkRules (scan.go with its channels, WaitGroup and go statements replaced by scheduler shims) with 1..3 workers on 3 rule files under the tie configuration: every schedule within 2 (thorough 3) departures from the default schedule, with happens-before state caching; oracle: no deadlock, every goroutine finishes, rendered outcome and fail-on verdicts equal those of a free-running single-worker run, and more than one arrival order is observed",
 		Assumptions: []string{
 			"arrival order at the results channel is the only way scheduling can influence the summary; the permutations space covers all orders of it, the schedules space the fan-out/fan-in itself",
-			"data races are outside both spaces (supplementary free-running -race pass)",
+			"data races are outside both spaces: a supplementary free-running pass runs the -race build of pint on the tie files and a stress file; it can only add true alarms (the race detector has no false positives) and its schedules are sampled, not enumerated",
 		},
 		Spaces: []*explore.Space{
 			c11perm.Space(),
@@ -165,7 +165,8 @@ func verifC11Main() {
 			if len(agg.Sets["arrival_orders"]) < 4 {
 				return nil, fmt.Sprintf("vacuity guard: only %d distinct arrival orders observed in the schedules space", len(agg.Sets["arrival_orders"]))
 			}
-			return nil, ""
+			return verifC11RacePass(), ""
 		},
+		Extra: func(string, *explore.Aggregate) map[string]any { return verifRaceStats },
 	})
 }
